@@ -62,9 +62,9 @@ inline std::string jnum(double v) { char b[48]; if (v != v || v - v != 0) snprin
 struct PassRec { unsigned long iters; unsigned maxloop; unsigned long slots; long budget; };
 struct HookState {
     std::vector<PassRec> passes;
-    unsigned long fired = 0;
+    unsigned long fired = 0, late_assoc = 0;
     unsigned load_err = 0, load_ctx = 0; bool load_failed = false;
-    void reset() { passes.clear(); fired = 0; load_err = load_ctx = 0; load_failed = false; }
+    void reset() { passes.clear(); fired = 0; late_assoc = 0; load_err = load_ctx = 0; load_failed = false; }
 };
 inline HookState &hooks() { static thread_local HookState h; return h; }
 #ifdef DRV_DEFINE_HOOKS
@@ -73,6 +73,7 @@ extern "C" void graphite2_verif_pass(unsigned long iterations, unsigned int max_
     if (h.passes.size() < 4096) h.passes.push_back({iterations, max_rule_loop, slots_at_start, insert_budget});
 }
 extern "C" void graphite2_verif_rule_fired() { ++hooks().fired; }
+extern "C" void graphite2_verif_late_assoc() { ++hooks().late_assoc; }
 extern "C" void graphite2_verif_load_failed(unsigned int error, unsigned int context) { HookState &h = hooks(); h.load_failed = true; h.load_err = error; h.load_ctx = context; }
 #endif
 inline unsigned long pass_bound(const PassRec &r) {
